@@ -242,6 +242,18 @@ func (cs *ContractSet) parseFile(pkgPath, file string, f *ast.File) {
 					r.Keep = fs[2:]
 				}
 				cur.Resets = append(cur.Resets, r)
+			case "ghostcall":
+				// ghostcall CALLEE SET: a call of the named function records its first
+				// (non-receiver) argument in ghost set SET instead of being executed
+				fs := strings.Fields(rest)
+				if len(fs) != 2 {
+					errf("bad ghostcall clause: %s", ln)
+					continue
+				}
+				if cur.GhostCalls == nil {
+					cur.GhostCalls = map[string]string{}
+				}
+				cur.GhostCalls[fs[0]] = fs[1]
 			case "except":
 				cur.Except = append(cur.Except, strings.Fields(rest)...)
 			case "reveal":
